@@ -218,7 +218,10 @@ class Interp(Ops):
         if isinstance(container, VMap):
             return z3.Select(self.st.heap[(container.ref, "dom")], term_of(x))
         if isinstance(container, VSeq):
-            return z3.Contains(self.st.heap[(container.ref, "seq")], z3.Unit(term_of(x)))
+            xt = term_of(x)
+            if container.elem[0] in ("opaque", "func") and isinstance(x, VStr):
+                xt = z3.Function("box_str", z3.StringSort(), Opaque)(x.term)   # a str among arbitrary objects
+            return z3.Contains(self.st.heap[(container.ref, "seq")], z3.Unit(xt))
         if isinstance(container, VStr) and isinstance(x, VStr):
             return z3.Contains(container.term, x.term)
         raise Unsupported(f"membership in {container!r}")
@@ -562,8 +565,13 @@ class Interp(Ops):
             if attr in self.tenv.fields_of(o.cls):
                 return self.get_field(o, attr)
         elif (o.ref, attr) in self.st.heap:
-            return self.st.heap[(o.ref, attr)]
-        ci = self.repo.cls(o.cls)
+            hv = self.st.heap[(o.ref, attr)]
+            if isinstance(hv, VObj) and hv.cls == "_middleware_wrapper" and not self.spec_mode \
+                    and self.find_contract_for_method(o.cls, attr) is not None:
+                hv = VObj(hv.cls, hv.ref)
+                hv.origin = (o, attr)    # remembered so that *calling* it resolves to the operation's contract
+            return hv
+        ci = self.repo_class_of(o.cls)
         if ci is not None:
             fi = self.repo.find_method(ci, attr)
             if fi is None and attr.startswith("_") and "__" in attr[1:]:
@@ -618,9 +626,26 @@ class Interp(Ops):
             return cattrs[(c.name, attr)]
         raise Unsupported(f"class attribute {c.name}.{attr}")
 
+    def repo_class_of(self, cls: str):
+        """the ClassInfo of cls, or of the first repository class among the bases of a sidecar-only class"""
+        ci = self.repo.cls(cls)
+        if ci is not None:
+            return ci
+        for b in self._ext_bases(cls):
+            ci = self.repo.cls(b)
+            if ci is not None:
+                return ci
+        return None
+
     def find_contract_for_method(self, cls: str, name: str) -> Contract | None:
         ci = self.repo.cls(cls)
-        names = [c.name for c in self.repo.mro(ci)] if ci is not None else [cls] + self._ext_bases(cls)
+        if ci is not None:
+            names = [c.name for c in self.repo.mro(ci)]
+        else:
+            names = [cls]
+            for b in self._ext_bases(cls):
+                bi = self.repo.cls(b)
+                names += [c.name for c in self.repo.mro(bi)] if bi is not None else [b]
         for n in names:
             c = self.db.lookup(f"{n}.{name}")
             if c is not None:
@@ -716,8 +741,37 @@ class Interp(Ops):
         return out
 
     def e_DictComp(self, e, fr):
+        if len(e.generators) == 1 and isinstance(e.generators[0].target, ast.Tuple) \
+                and len(e.generators[0].target.elts) == 2 and isinstance(e.key, ast.Name) and isinstance(e.value, ast.Name):
+            g = e.generators[0]
+            it = self.eval(g.iter, fr)
+            kn, vn = (x.id for x in g.target.elts)
+            if getattr(it, "kind", "") == "iter" and it.what == "items" and isinstance(it.base, VMap) \
+                    and e.key.id == kn and e.value.id == vn:
+                return self.filter_map(it.base, kn, vn, g.ifs, fr)
         pairs = self.comp(e, fr, pair=True)
         return self.new_dict({self.concrete_key(k): v for k, v in pairs})
+
+    def filter_map(self, m: VMap, kn: str, vn: str, conds, fr) -> VMap:
+        """{k: v for k, v in m.items() if cond(k, v)}: same values, domain restricted by the (pure) condition"""
+        from .loops import map_get
+        kt = m.key
+        kvar = z3.Const(self.st.fresh_name("k"), sort_of_type(kt))
+        inner = Frame(fr.finfo, fr, cls=fr.cls)
+        inner.vars[kn] = wrap(kt, kvar)
+        inner.vars[vn] = map_get(self, m, inner.vars[kn])
+        saved = self.spec_mode
+        self.spec_mode = True     # the filter must be side-effect free: evaluated without forking
+        try:
+            ts = [_b(self.truth(self.eval(c, inner))) for c in conds]
+        finally:
+            self.spec_mode = saved
+        dom = self.st.heap[(m.ref, "dom")]
+        newdom = z3.Lambda([kvar], z3.And(z3.Select(dom, kvar), *ts))
+        ref = self.st.new_ref()
+        self.st.heap[(ref, "dom")] = newdom
+        self.st.heap[(ref, "val")] = self.st.heap[(m.ref, "val")]
+        return VMap(ref, m.key, m.val)
 
     def iterate(self, v: V):
         """iterate a collection with a concrete number of elements"""
@@ -838,6 +892,11 @@ class Interp(Ops):
             return self.apply_contract(c, am, node, awaited=awaited)
         if isinstance(fn, VClass):
             return self.instantiate(fn.name, args, kwargs, node)
+        if isinstance(fn, VObj) and getattr(fn, "origin", None) is not None:
+            # calling a wrapped operation = calling the operation: the wrapper only observes (property C17)
+            self.st.assumed_used.add("a middleware-wrapped operation behaves as the operation itself (property C17)")
+            o, attr = fn.origin
+            return self.call_function(VMethod(o, o.cls, attr), args, kwargs, node, awaited=awaited)
         if isinstance(fn, VObj):
             c = self.find_contract_for_method(fn.cls, "__call__")
             if c is None:
@@ -852,16 +911,10 @@ class Interp(Ops):
                 raise Unsupported(f"call of an opaque callable without contract '{tag}.__call__' at line {getattr(node, 'lineno', '?')}")
             if c.is_async and not awaited:
                 return VCoro(fn, args, kwargs, node)
-            am = {"fn": fn, "args": VTuple(args), "kwargs": self.new_dict(kwargs)}
             if c.params:
-                names = [p for p in c.params if p not in ("fn",)]
-                for n, a in zip(names, args):
-                    am[n] = a
-                for k, v in kwargs.items():
-                    am[k] = v
-                for n in names:
-                    if n not in am and n in c.defaults:
-                        am[n] = self.eval_spec_expr(c.defaults[n], {})
+                am = self.argmap_for(None, c, None, [fn] + list(args), kwargs)
+            else:
+                am = {"fn": fn, "args": VTuple(args), "kwargs": self.new_dict(kwargs)}
             return self.apply_contract(c, am, node, awaited=awaited)
         raise Unsupported(f"call of {fn!r}")
 
@@ -878,6 +931,9 @@ class Interp(Ops):
             c = self.db.lookup(f"{cls}.__init__")
             if c is not None:
                 return self.apply_contract(c, self.argmap_for(None, c, None, args, kwargs), node)
+            if cls in self.db.shapes:
+                # external class described only by its sidecar shape: a fresh object with unset fields
+                return self.new_obj(cls, {})
             raise Unsupported(f"instantiation of unknown class {cls}")
         if "NamedTuple" in ci.bases:
             names = [f[0] for f in ci.fields]
@@ -986,6 +1042,12 @@ class Interp(Ops):
         allargs = list(args)
         if selfv is not None and params[:1] == ["self"]:
             allargs = [selfv] + allargs
+        for p in list(params):
+            if p.startswith("**"):
+                params.remove(p)
+                kw = dict(kwargs)
+                kwargs = {}
+                am[p[2:]] = kw["**"] if set(kw) == {"**"} else self.new_dict(kw)
         star = None
         for i, p in enumerate(params):
             if p.startswith("*"):
@@ -1114,7 +1176,7 @@ class Interp(Ops):
         if isinstance(base, VOpt):
             base = self.unopt_attr(base, attr)
         if isinstance(base, VObj):
-            ci = self.repo.cls(base.cls)
+            ci = self.repo_class_of(base.cls)
             if ci is not None:
                 setter = self.repo.find_method(ci, attr + ".setter")
                 if setter is not None:
